@@ -59,10 +59,19 @@ RemoveProcessor(T) ==
        ELSE \E t \in Cands(procs, T) : procs' = procs \ {t} /\ last' = <<"proc", T, t>>
     /\ UNCHANGED <<bases, comps>>
 
+\* attaching an instance of a class that has none yet (queries made before - the replay makes all of them at every
+\* step - must not fix the answer of later ones: an exact-type instance that arrives later is the preferred one)
+AddComponent(T) ==
+    /\ (Deep \/ last[1] \in {"init", "obs"}) /\ T \notin comps
+    /\ comps' = comps \cup {T} /\ last' = <<"addc", T, T>> /\ UNCHANGED <<bases, procs>>
+AddProcessor(T) ==
+    /\ (Deep \/ last[1] \in {"init", "obs"}) /\ T \notin procs
+    /\ procs' = procs \cup {T} /\ last' = <<"addp", T, T>> /\ UNCHANGED <<bases, comps>>
+
 \* no call: gives the replay a step at which every query is compared on the freshly built world
 Observe == last[1] = "init" /\ last' = <<"obs", 0, 0>> /\ UNCHANGED <<bases, comps, procs>>
 
-Next == Observe \/ (\E T \in Cls : RemoveComponent(T) \/ RemoveProcessor(T))
+Next == Observe \/ (\E T \in Cls : RemoveComponent(T) \/ RemoveProcessor(T) \/ AddComponent(T) \/ AddProcessor(T))
 Spec == Init /\ [][Next]_vars
 
 ----------------------------------------------------------------------------
@@ -71,7 +80,8 @@ MatchesExactlySub == \A T, t \in Cls : (GetCount(T, t) > 0) <=> (t \in comps /\ 
 CandsAreSubclasses == \A T \in Cls : Cands(comps, T) \subseteq Sub(T) /\ Cands(procs, T) \subseteq Sub(T)
                                      /\ (Cands(comps, T) = {} <=> Sub(T) \cap comps = {})
 ExactPreferred == \A T \in Cls : (T \in comps => Cands(comps, T) = {T}) /\ (T \in procs => Cands(procs, T) = {T})
-RemovesOne == [][/\ Cardinality(comps) - Cardinality(comps') \in {0, 1}
+RemovesOne == [][(\E T \in Cls : RemoveComponent(T) \/ RemoveProcessor(T)) =>
+                 /\ Cardinality(comps) - Cardinality(comps') \in {0, 1}
                  /\ Cardinality(procs) - Cardinality(procs') \in {0, 1}
                  /\ (last'[3] # 0 <=> (Cardinality(comps') + Cardinality(procs') < Cardinality(comps) + Cardinality(procs)))]_vars
 =============================================================================
